@@ -525,6 +525,59 @@ func drawSnippet(t *rapid.T, name string, e genEnv) []Op {
 				ops = append(ops, Op{K: "login", B: b, A: e.nAcct, Src: "pw", SA: e.nAcct})
 			}
 		}
+	case "settings":
+		// a fully authed owner (or somebody else) pokes at the 2FA settings
+		if !c.Has("auth") {
+			return nil
+		}
+		startHalf := c.Middleware == "remember" && chance(t, "starthalf", 30)
+		if startHalf {
+			login.F = true
+		}
+		ops = append(ops, login)
+		if c.HasSetup("totp") {
+			ops = append(ops, Op{K: "totpvalidate", B: b, A: a, Src: "totp", SA: a})
+		}
+		if c.HasSetup("sms") {
+			ops = append(ops, Op{K: "smsvalidate", B: b, A: a, Src: "smssess"})
+		}
+		if startHalf {
+			ops = append(ops, Op{K: "newsess", B: b}, Op{K: "visit", B: b, S: "/open"})
+		}
+		other := (a + 1) % e.nAcct
+		for i := rapid.IntRange(1, 4).Draw(t, "npokes"); i > 0; i-- {
+			switch pick(t, "poke", "evend-empty", "evend-absent", "evstart-end", "totpsetup", "smssetup-new", "smsremove-sess", "smsremove-own", "totpremove-own", "totpremove-other", "remove-rec", "remove-rec-other", "confirm-sess", "resend-remove", "advance") {
+			case "evend-empty":
+				ops = append(ops, Op{K: "evend", B: b, A: a, N: rapid.IntRange(0, 1).Draw(t, "k"), Src: "empty"})
+			case "evend-absent":
+				ops = append(ops, Op{K: "evend", B: b, A: a, N: rapid.IntRange(0, 1).Draw(t, "k"), Src: "absent"})
+			case "evstart-end":
+				k := rapid.IntRange(0, 1).Draw(t, "k")
+				ops = append(ops, Op{K: "evstart", B: b, N: k}, Op{K: "evend", B: b, A: a, N: k, Src: pick(t, "evsrc", "evtok", "evtok", "sesstok", "empty"), SA: pick(t, "evwho", a, a, other)})
+			case "totpsetup":
+				ops = append(ops, Op{K: "totpsetup", B: b}, Op{K: "totpconfirm", B: b, A: a, Src: pick(t, "csrc", "totpsess", "totpsess", "totp", "rand6"), SA: a})
+			case "smssetup-new":
+				ops = append(ops, Op{K: "smssetup", B: b, S: pick(t, "number", "+15550009", "+4477000")})
+			case "confirm-sess":
+				ops = append(ops, Op{K: "smsconfirm", B: b, A: a, Src: pick(t, "ssrc", "smssess", "smssess", "sms", "rand6"), SA: a})
+			case "smsremove-sess":
+				ops = append(ops, Op{K: "smsremove", B: b, A: a, Src: "smssess"})
+			case "smsremove-own":
+				ops = append(ops, Op{K: "advance", N: 12}, Op{K: "smsresend", B: b, S: "remove"}, Op{K: "smsremove", B: b, A: a, Src: "sms", SA: a})
+			case "resend-remove":
+				ops = append(ops, Op{K: "smsresend", B: b, S: pick(t, "page", "remove", "confirm", "validate")})
+			case "totpremove-own":
+				ops = append(ops, Op{K: "totpremove", B: b, A: a, Src: "totp", SA: a})
+			case "totpremove-other":
+				ops = append(ops, Op{K: "totpremove", B: b, A: a, Src: "totp", SA: other})
+			case "remove-rec":
+				ops = append(ops, Op{K: pick(t, "rk", "totpremove", "smsremove"), B: b, A: a, Src: "rec", SA: a, F: true})
+			case "remove-rec-other":
+				ops = append(ops, Op{K: pick(t, "rk", "totpremove", "smsremove"), B: b, A: a, Src: "rec", SA: other, F: true})
+			case "advance":
+				ops = append(ops, Op{K: "advance", N: pick(t, "g", 3, 12)})
+			}
+		}
 	case "rec2fa":
 		// complete a 2FA login with a recovery code, then replay the same code
 		if !c.Has("auth") || (!c.HasSetup("totp") && !c.HasSetup("sms")) {
